@@ -339,7 +339,7 @@ def run_check(prop, tier, seed):
         {'obligations': 0, 'discharged': 0, 'axioms': [], 'ok': False, 'rc': rc, 'stderr': blog, 'names': []}
     # 1b. functions whose source text is translated to Gallina on this run and proved equal to the model
     if rc == 0 and prop in translate.TARGETS:
-        tg = translate.check(prop, os.path.join(WORK, prop))
+        tg = translate.check(prop, os.path.join(WORK, prop), tier)
         th['obligations'] += tg['obligations']
         th['discharged'] += tg['discharged']
         th['names'] = th['names'] + ['translated:' + n for n in tg['names']]
